@@ -145,10 +145,26 @@ def genSpecs (allowStorage : Bool) (s : R) : List Tk × R :=
 
 def declNames : List String := ["v", "w", "cnt", "ptr", "tab", "k", "m"]
 
+def genILwith (g : R → Init.I × R) : Nat → R → Init.IL × R
+  | 0, s => (.nil, s)
+  | k+1, s => let i := g (lcg s); let r := genILwith g k i.2; (.cons i.1 r.1, r.2)
+
+/-- an initializer: an assignment expression or a (nested) brace list, sometimes with a trailing comma -/
+def genI : Nat → R → Init.I × R
+  | 0, s => let e := genX 2 1 s; (.expr e.1, e.2)
+  | f+1, s =>
+    if sel s 3 != 0 then let e := genX 2 1 (lcg s); (.expr e.1, e.2)
+    else
+      let n := sel (lcg s) 4
+      if n == 0 then (.list .nil false, lcg (lcg s))
+      else
+        let its := genILwith (genI f) n (lcg (lcg s))
+        (.list its.1 (sel its.2 3 == 0), lcg its.2)
+
 def genIDc (x : String) (s : R) : IDc × R :=
   let d := genD x s
   if sel d.2 2 == 0 then ({ d := d.1, init := none }, lcg d.2)
-  else let e := genX 2 1 (lcg d.2); ({ d := d.1, init := some e.1 }, e.2)
+  else let e := genI 2 (lcg d.2); ({ d := d.1, init := some e.1 }, e.2)
 
 def genDcl (storage : Bool) (s : R) : Dcl × R :=
   let sp := genSpecs storage s
